@@ -292,6 +292,7 @@ def kernel_probes(ctx, rng):
     for bad in ar:
         if bad[2]: ctx.violation('c19:parse-arity:' + bad[0], bad[1] + ': the argument parser stores through an indeterminate pointer', {'where': bad[0]})
     evals += c19_lapack.lapack_probes(ctx, rng, gb)
+    evals += c19_lapack.blas_grammar_probes(ctx, rng, gb)
     evals += c19_lapack.embed_probes(ctx, rng, gb, 'C19')
     from corr import c19_base
     evals += c19_base.base_probes(ctx, rng, gb, 'C19')
